@@ -239,6 +239,54 @@ class CFG:
                 todo.append(m)
         return False
 
+    def paths_avoiding_flags(self, start: N, avoid: Set[N], targets: Set[N]) -> bool:
+        """Like paths_avoiding (normal edges only) but prunes branches that contradict
+        boolean flags assigned constants along the path (`changed = True ... if not changed: return`)."""
+        def upd(n, flags):
+            if n.kind in ("stmt", "for", "with", "except", "def"):
+                st = stores_of(n)
+                if st:
+                    flags = dict(flags)
+                    for name in st:
+                        flags.pop(name, None)
+                    a = n.ast
+                    if n.kind == "stmt" and isinstance(a, ast.Assign) and len(a.targets) == 1 \
+                            and isinstance(a.targets[0], ast.Name) and isinstance(a.value, ast.Constant) \
+                            and isinstance(a.value.value, bool):
+                        flags[a.targets[0].id] = a.value.value
+            return flags
+
+        def feasible(n, label, flags):
+            if n.kind != "test" or label not in ("T", "F"):
+                return True
+            t = n.ast
+            neg = False
+            while isinstance(t, ast.UnaryOp) and isinstance(t.op, ast.Not):
+                neg = not neg
+                t = t.operand
+            if isinstance(t, ast.Name) and t.id in flags:
+                val = flags[t.id] != neg
+                return val == (label == "T")
+            return True
+
+        seen = set()
+        f0 = upd(start, {})
+        todo = [(m, f0) for m, l in start.succ if l != "exc" and feasible(start, l, f0)]
+        while todo:
+            n, flags = todo.pop()
+            key = (n.id, tuple(sorted(flags.items())))
+            if key in seen or n in avoid:
+                continue
+            seen.add(key)
+            if n in targets:
+                return True
+            flags2 = upd(n, flags)
+            for m, l in n.succ:
+                if l == "exc" or not feasible(n, l, flags2):
+                    continue
+                todo.append((m, flags2))
+        return False
+
     def reaches(self, start: N, target: N, include_exc=False, avoid: Set[N] = frozenset()) -> bool:
         return self.paths_avoiding(start, set(avoid), {target}, include_exc)
 
